@@ -118,5 +118,25 @@ theorem get_delAll (m : Map κ ν) (ks : List κ) (x : κ) :
       · subst h2; simp
       · simp [h1, h2, Ne.symm h2]
 
+theorem mem_del {m : Map κ ν} {k : κ} {e : κ × ν} (h : e ∈ Map.del m k) : e ∈ m := by
+  simp only [Map.del, List.mem_filter] at h; exact h.1
+
+theorem mem_put {m : Map κ ν} {k : κ} {v : ν} {e : κ × ν} (h : e ∈ Map.put m k v) : e = (k, v) ∨ e ∈ m := by
+  simp only [Map.put, List.mem_cons] at h
+  rcases h with h | h
+  · exact Or.inl h
+  · exact Or.inr (mem_del h)
+
+theorem mem_delAll {m : Map κ ν} {ks : List κ} {e : κ × ν} (h : e ∈ Map.delAll m ks) : e ∈ m := by
+  induction ks generalizing m with
+  | nil => simpa [Map.delAll] using h
+  | cons k ks ih =>
+    simp only [Map.delAll, List.foldl_cons] at h
+    exact mem_del (ih (m := Map.del m k) (by simpa [Map.delAll] using h))
+
+/-- a key with an element in the list is found by `get` -/
+theorem get_isSome_of_mem {m : Map κ ν} {e : κ × ν} (h : e ∈ m) : (Map.get m e.1).isSome = true := by
+  rw [get_isSome_iff]; exact List.mem_map_of_mem h
+
 end Map
 end Verif.MptStore
